@@ -159,8 +159,11 @@ func c1xOutput(got []hist.Obs) (string, string) {
 // c1xFuncForm runs a history (ops newfile noformat fadd render rplain only) on the
 // implementation with every literal built through the ...Func form: the package-level
 // function when the literal starts a statement, the *Statement method otherwise, and the
-// *Group method inside a CallFunc callback for the arguments of a Call.  It returns the
-// bytes written and how often the callbacks were called.
+// *Group method inside a ...Func callback for a literal that is an item of a group on its own
+// (CallFunc for the arguments of a Call, CustomFunc, and the ...Func variant of every other
+// group that has one: ValuesFunc IndexFunc CaseFunc ReturnFunc ListFunc ...; Block and Params
+// are built through their variadic forms).  It returns the bytes written and how often the
+// callbacks were called.
 func c1xFuncForm(h hist.History) (out string, calls int, msg string) {
 	defer func() {
 		if r := recover(); r != nil {
@@ -200,7 +203,36 @@ func c1xFuncForm(h hist.History) (out string, calls int, msg string) {
 		panic("c1x: not a literal token")
 	}
 	isLit := func(t term.Tok) bool { return t.Kind == "lit" || t.Kind == "rune" || t.Kind == "byte" }
+	codeT := reflect.TypeOf((*jen.Code)(nil)).Elem()
 	var stmt func(st *term.Stmt) *jen.Statement
+	// code: an item of a group, a key or a value of a Dict
+	var code func(n term.Node) jen.Code
+	code = func(n term.Node) jen.Code {
+		switch x := n.(type) {
+		case *term.Stmt:
+			return stmt(x)
+		case *term.Dict:
+			d := jen.Dict{}
+			for _, p := range x.Pairs {
+				d[code(p[0])] = code(p[1])
+			}
+			return d
+		}
+		panic(fmt.Sprintf("c1x: item %T", n))
+	}
+	// fill adds the items of a group through the *Group handed to a ...Func callback: a literal
+	// that is an item on its own through g.LitFunc / g.LitRuneFunc / g.LitByteFunc
+	fill := func(g *jen.Group, items []term.Node) {
+		for _, a := range items {
+			if as, ok := a.(*term.Stmt); ok && len(as.Items) == 1 {
+				if t, ok := as.Items[0].(term.Tok); ok && isLit(t) {
+					litFunc(nil, g, t)
+					continue
+				}
+			}
+			g.Add(code(a))
+		}
+	}
 	stmt = func(st *term.Stmt) *jen.Statement {
 		var s *jen.Statement
 		need := func() *jen.Statement {
@@ -219,6 +251,12 @@ func c1xFuncForm(h hist.History) (out string, calls int, msg string) {
 					need().Id(x.S)
 				case x.Kind == "op":
 					need().Op(x.S)
+				case x.Kind == "dot":
+					need().Dot(x.S)
+				case x.Kind == "line":
+					need().Line()
+				case x.Kind == "null":
+					need().Null()
 				case x.Kind == "named":
 					reflect.ValueOf(need()).MethodByName(x.S).Call(nil)
 				default:
@@ -227,27 +265,55 @@ func c1xFuncForm(h hist.History) (out string, calls int, msg string) {
 			case *term.Group:
 				switch x.Method {
 				case "Call":
-					need().CallFunc(func(g *jen.Group) {
-						for _, a := range x.Items {
-							as := a.(*term.Stmt)
-							if t, ok := as.Items[0].(term.Tok); ok && len(as.Items) == 1 && isLit(t) {
-								litFunc(nil, g, t)
-							} else {
-								g.Add(stmt(as))
-							}
-						}
-					})
+					need().CallFunc(func(g *jen.Group) { fill(g, x.Items) })
 				case "Params":
-					need().Params()
+					cs := make([]jen.Code, len(x.Items))
+					for i, a := range x.Items {
+						cs[i] = code(a)
+					}
+					need().Params(cs...)
 				case "Block":
 					var cs []jen.Code
 					for _, a := range x.Items {
 						cs = append(cs, stmt(a.(*term.Stmt)))
 					}
 					need().Block(cs...)
+				case "Qual":
+					need().Qual(x.Path, x.Name)
+				case "Custom":
+					need().CustomFunc(x.Opts, func(g *jen.Group) { fill(g, x.Items) })
 				default:
-					panic("c1x: group " + x.Method)
+					// any other group: through its ...Func variant when it has one (the items are
+					// added through the *Group of the callback), else through the method itself
+					if m := reflect.ValueOf(need()).MethodByName(x.Method + "Func"); m.IsValid() && m.Type().NumIn() == 1 &&
+						m.Type().In(0) == reflect.TypeOf(func(*jen.Group) {}) {
+						m.Call([]reflect.Value{reflect.ValueOf(func(g *jen.Group) { fill(g, x.Items) })})
+						break
+					}
+					m := reflect.ValueOf(need()).MethodByName(x.Method)
+					if !m.IsValid() {
+						panic("c1x: group " + x.Method)
+					}
+					in := make([]reflect.Value, len(x.Items))
+					for i, a := range x.Items {
+						v := reflect.New(codeT).Elem()
+						v.Set(reflect.ValueOf(code(a)))
+						in[i] = v
+					}
+					m.Call(in)
 				}
+			case *term.Stmt:
+				need().Add(stmt(x))
+			case *term.Dict:
+				need().Add(code(x))
+			case term.Tag:
+				mp := map[string]string{}
+				for _, kv := range x.KV {
+					mp[kv[0]] = kv[1]
+				}
+				need().Tag(mp)
+			case term.Comment:
+				need().Comment(x.Text)
 			default:
 				panic(fmt.Sprintf("c1x: item %T", it))
 			}
